@@ -272,9 +272,12 @@ func progEqAttribution(a, b, c vu.Val, got, want []string, t vu.Type) string {
 
 // JSONProgram builds the program that serialises a value and parses it back under its type.
 func JSONProgram(t vu.Type, a vu.Val, explicit bool) (string, bool) {
-	la, ok := vu.Literal(a, t)
+	la, setup, ok := literalWithSetup(a, t, "a")
 	if !ok {
 		return "", false
+	}
+	if setup != "" {
+		la += ";\n" + strings.TrimSuffix(strings.TrimSuffix(setup, "\n"), ";")
 	}
 	ty := t.Src()
 	crossing := fmt.Sprintf("let back: %s = s.parse_json();", ty)
@@ -297,13 +300,57 @@ func JSONProgram(t vu.Type, a vu.Val, explicit bool) (string, bool) {
 		"}\n", true
 }
 
+// literalWithSetup writes v as an expression of type t plus statements that complete the value
+// once it is bound to the variable `name`. A `none` has no natural type, so an any-object member
+// that holds none cannot be part of the cast object literal: it is left out of the literal and put
+// in place by `<path>.set("key", none);` (only for any-objects at typed positions that are
+// reached without passing an option).
+func literalWithSetup(v vu.Val, t vu.Type, name string) (lit, setup string, ok bool) {
+	if lit, ok = vu.Literal(v, t); ok {
+		return lit, "", true
+	}
+	stripped := v
+	var sb strings.Builder
+	for _, tp := range vu.TypedPositions(v, t) {
+		if tp.T.K != vu.TAnyObj || tp.V.K != vu.VAnyObj {
+			continue
+		}
+		opt := false
+		for _, e := range tp.Path {
+			opt = opt || e.Kind == 'o'
+		}
+		cur := tp.V
+		for i, k := range tp.V.Keys {
+			if tp.V.Vals[i].K == vu.VNone && !opt && !strings.ContainsAny(k, "\"\\") {
+				cur = cur.Without(k)
+				fmt.Fprintf(&sb, "    %s%s.set(\"%s\", none);\n", name, tp.Path.Render(false), k)
+			}
+		}
+		if len(cur.Keys) != len(tp.V.Keys) {
+			stripped = replaceAt(stripped, tp.Path, cur)
+		}
+	}
+	if sb.Len() == 0 {
+		return "", "", false
+	}
+	lit, ok = vu.Literal(stripped, t)
+	return lit, sb.String(), ok
+}
+
 func (j *judge) progJSON() {
 	t := j.p.T
 	vals := pool(j.p)
+	// the values with none in untyped content are run in addition to the first Max values
+	extra := map[string]bool{}
+	if j.p.Vals == nil {
+		for _, v := range untypedNoneVariants(vals, t) {
+			extra[v.String()] = true
+		}
+	}
 	count := 0
 	for _, v := range vals {
-		if j.p.Vals == nil && count >= j.p.Max {
-			break
+		if j.p.Vals == nil && count >= j.p.Max && !extra[v.String()] {
+			continue
 		}
 		if !jsonCarries(v, t) {
 			continue
@@ -311,10 +358,12 @@ func (j *judge) progJSON() {
 		if hasAny(jsonConstructs(v, t, "vm", ""), j.p.Avoid) || hasAny(progConstructs(v, t), j.p.Avoid) {
 			continue
 		}
-		if _, ok := vu.Literal(v, t); !ok {
+		if _, _, ok := literalWithSetup(v, t, "a"); !ok {
 			continue
 		}
-		count++
+		if !extra[v.String()] {
+			count++
+		}
 		j.hashParts = append(j.hashParts, v.String())
 		for _, explicit := range []bool{true, false} {
 			mode := map[bool]string{true: "as", false: "let"}[explicit]
